@@ -95,7 +95,8 @@ def gen(data: bytes):
         deriv = [name, tp.pick([c for c in ("MG", "SMG", "CRG", "SCRG")
                                 if c != cls])]
     elif name == "relabel":
-        deriv = [name, [[a, b] for a, b in S.renaming(tp, m.atoms).items()]]
+        from vp.props.c11 import gen_mapping
+        deriv = [name, gen_mapping(tp, m.atoms)]
     elif name == "subgraph":
         atoms = list(m.atoms)
         k = 1 + tp.below(len(atoms))
